@@ -416,7 +416,7 @@ fn run_case_in(ctx: &Ctx, acc: &mut Acc, case: &Case, project: &mut Project) {
     }) {
         // the failure belongs to C09; here the case has no well-formed normalized program to look at
         acc.stat("skipped_normalize_basic_panicked", 1);
-        acc.outcome(&("normalize-panic", mcx::panic_site(&p)));
+        acc.outcome(&("normalize-panic", site(&p)));
         return;
     }
     let broken = broken_invariants(&project.program);
@@ -426,13 +426,22 @@ fn run_case_in(ctx: &Ctx, acc: &mut Acc, case: &Case, project: &mut Project) {
         return;
     }
     acc.transitions += 1;
+    if ctx.replay_case().is_some() {
+        println!("--- raw program\n{}--- after normalize_basic\n{}", raw_text(), project.program.term);
+    }
     match compare(&project.program) {
         Err(p) => ctx.violation(
-            format!("panic {}", mcx::panic_site(&p)),
+            format!("panic {}", site(&p)),
             case_json(),
             json!({"observed": format!("get_program_cfg panicked: {p}"), "expected": "a graph", "raw": raw_text(), "normalized": render(project)}),
         ),
         Ok((diffs, spec, (nn, ne))) => {
+            if ctx.replay_case().is_some() {
+                println!("--- expected graph: {} nodes, {} edges; built graph: {nn} nodes, {ne} edges", spec.nodes.len(), spec.edges.len());
+                for e in &spec.edges {
+                    println!("    {e:?}");
+                }
+            }
             let mut by_class: BTreeMap<String, Vec<String>> = BTreeMap::new();
             for (k, d) in diffs {
                 by_class.entry(k).or_default().push(d);
